@@ -2,7 +2,7 @@
    checker to OCaml.  Only ExtrOcamlBasic is used (bool, option, unit, list, prod, sumbool as
    OCaml's own types); nat, positive, N and Z stay Coq's own (unary / binary) datatypes. *)
 From Coq Require Import ZArith List Extraction ExtrOcamlBasic.
-From HB Require Import RsPrelude Sse2 Gen Group Raw Map Check AssocSpec Triangular SetAlg SetOps Table MultisetSpec Clone Par Serde Addr Entry2 PanicOps PanicOps2 OwnIter.
+From HB Require Import RsPrelude Sse2 Gen Group Raw Map Check AssocSpec Triangular SetAlg SetOps Table MultisetSpec Clone Par Serde Addr Entry2 PanicOps PanicOps2 OwnIter Digest.
 
 Extraction Language OCaml.
 
@@ -27,5 +27,6 @@ Extraction "../ocaml/extracted/hb.ml"
   Clone.clone_table Clone.clone_from Clone.map_eq Par.split_leaves Serde.deser_map
   Addr.bucket_ptr Addr.bucket_as_ptr Addr.elem_range Addr.ctrl_align
   Entry2.rustc_step Entry2.raw_step Entry2.raw_get
+  Digest.map_step_digest
   PanicOps.m_retain_p PanicOps.m_extract_p PanicOps2.m_extend_p PanicOps2.eref_into_p_step PanicOps2.m_entry_replace_p PanicOps2.m_entry_and_modify_p
   OwnIter.into_iter_consume OwnIter.drain_consume OwnIter.into_iter_leak OwnIter.drain_leak.
